@@ -157,6 +157,11 @@ Cyc6(v) == ((v - 1) % 6) + 1
 DistortionBefore(cell, v) ==        \* an extra point between corner v-1 and corner v (corners 1..6, cyclic)
   LET a == AdjustedVert(cell, v)   b == AdjustedVert(cell, Cyc6(v + 5)) IN
   a.f # b.f /\ b.ov # 1 /\ a.ov # 1
+\* the boundary of a Class III hexagon as a pattern: TRUE = corner, FALSE = extra point, in the order the code emits them
+\* (corner 1, [extra], corner 2, ..., corner 6, [extra before corner 1])
+HexBoundaryPattern(cell) ==
+  LET part(v) == IF DistortionBefore(cell, v) THEN <<FALSE, TRUE>> ELSE <<TRUE>> IN
+  <<TRUE>> \o part(2) \o part(3) \o part(4) \o part(5) \o part(6) \o (IF DistortionBefore(cell, 1) THEN <<FALSE>> ELSE <<>>)
 BoundaryPoints(cell) ==
   IF IsPentC(cell) THEN (IF ClassIII(cell.r) THEN 10 ELSE 5)
   ELSE IF ~ClassIII(cell.r) THEN 6
